@@ -259,7 +259,16 @@ func (t *ArrayTupleOfValue) ConcatVal(other Value) (Value, Value) {
 			newArrayTuple = append(newArrayTuple, *o...)
 			return Ref(&newArrayTuple), Undefined
 		case ArrayList:
-			newArrayTuple := make(ArrayListOfValue, len(*t), len(*t)+o.Length())
+			newArrayTuple := make(ArrayListOfValue, len(*t)+o.Length())
+			copy(newArrayTuple, *t)
+
+			for i, element := range o.Elements() {
+				newArrayTuple[len(*t)+i] = element
+			}
+
+			return Ref(&newArrayTuple), Undefined
+		case ArrayTuple:
+			newArrayTuple := make(ArrayTupleOfValue, len(*t)+o.Length())
 			copy(newArrayTuple, *t)
 
 			for i, element := range o.Elements() {
